@@ -58,7 +58,13 @@ Holds(c, f) == IF c.k = "true" THEN TRUE ELSE Eval(c, f)
 \* FlowSeq may attach the vector sel = SelOf(q.cond) to the query (field "sel") so that the
 \* condition is evaluated once per universe flow instead of once per stored record.
 SelOf(c) == [i \in FlowIds |-> Holds(c, FlowSeq[i])]
-HoldsQ(q, f) == IF "sel" \in DOMAIN q THEN q.sel[f.id] ELSE Holds(q.cond, f)
+\* (Field "nff", used only to tag cases: evaluate the condition under the given reading of != across
+\* IP families instead of the adopted one, see Cond!NeqForeignFamily.)
+HoldsQ(q, f) == IF "sel" \in DOMAIN q THEN q.sel[f.id]
+                ELSE IF "nff" \in DOMAIN q THEN (IF q.cond.k = "true" THEN TRUE ELSE EvalR(q.cond, f, q.nff))
+                ELSE Holds(q.cond, f)
+\* the query evaluated under the other reading of != (no memoised selection)
+OtherReading(q) == [x \in (DOMAIN q \ {"sel"}) \cup {"nff"} |-> IF x = "nff" THEN ~NeqForeignFamily ELSE q[x]]
 
 Tuple5(f) == <<f.fam, f.sip, f.dip, f.dport, f.proto>>
 WellFormedBlock(b) ==
@@ -107,7 +113,7 @@ RowsOfSel(S, q) == {r \in GroupsOf(S, q) : DirOK(q.dir, r.c)}
 RowsDef(db, q) == RowsOfSel(Selected(db, q), q)
 
 \* ---- the same as a fold (a map group -> counters built record by record)
-PutK(m, k, v) == [x \in DOMAIN m \cup {k} |-> IF x = k THEN v ELSE m[x]]
+PutK(m, k, v) == (k :> v) @@ m        \* k is not in DOMAIN m
 Upd(m, k, c) == IF k \in DOMAIN m THEN [m EXCEPT ![k] = Add4(@, c)] ELSE PutK(m, k, c)
 EmptyMap == <<>>
 RECURSIVE FoldRecs(_, _, _, _)
